@@ -185,8 +185,41 @@ def generate(rng, tier):
         scenario["start"] = rng.choice([0.2, 0.3, 0.6, 0.7])
     elif rng.random() < 0.1:
         scenario["start"] = rng.choice([-1, -5])        # the date 0 lies ahead
-    return {"property": ID, "scenario": scenario,
+    case = {"property": ID, "scenario": scenario,
             "plan": [], "config": {"waitq": rng.choice(["heap", "sd"])}}
+    if rng.random() < 0.1:
+        # the time conditions of the program are module-level objects that an earlier simulation
+        # has used already - one that an activity's failure aborted while their dates were still
+        # to come: this replication must be served all the same
+        scenario["share_conditions"] = "history"
+        scenario["share_time_only"] = True
+        case["aborted_first"] = rng.choice([0.125, 0.375, 1.125])
+    return case
+
+
+def run_case(case):
+    import sys
+    from ..runner import run_one
+    from ..world import SHARED_CONDITIONS, execute, cleanup
+    P = sys.modules[__name__]
+    if not case.get("aborted_first"):
+        return run_one(P, case)
+    import copy
+    SHARED_CONDITIONS.clear()
+    try:
+        aborted = copy.deepcopy(case)
+        aborted["scenario"]["actors"].append({"name": "zfail", "ops": [
+            {"op": "sleep", "d": case["aborted_first"]}, {"op": "raise", "type": "E"}]})
+        cleanup(execute(aborted))     # ends with zfail's exception; what it did is not judged
+        out = run_one(P, case)
+        for violation in out.violations:
+            violation["msg"] = "after an aborted simulation around the same time conditions: " \
+                + violation["msg"]
+        out.stats = dict(out.stats or {})
+        out.stats["probe.replication-after-aborted-run"] = 1
+        return out
+    finally:
+        SHARED_CONDITIONS.clear()
 
 
 def _diamond(rng, wid):
